@@ -7,7 +7,7 @@ use crate::vapi::*;
 const NM: usize = 5;
 const MM: usize = 3;
 
-// params: 0 = N states, 1 = M characters
+// params: 0 = N states, 1 = M characters, 2 = final-state mask + 1 (0: symbolic)
 #[no_mangle]
 pub extern "C" fn vh_c04_table() {
     let n = param(0) as usize;
@@ -21,7 +21,8 @@ pub extern "C" fn vh_c04_table() {
             t[i][a] = any_in(0, n as u32 - 1);
             a += 1;
         }
-        f[i] = any_bool();
+        // param 2: 0 = symbolic final flags, otherwise (concrete mask of final states) + 1
+        f[i] = if param(2) == 0 { any_bool() } else { ((param(2) - 1) >> i) & 1 == 1 };
         i += 1;
     }
     // Moore's distinguishability relation, branch-free: N rounds reach the fixpoint
